@@ -136,3 +136,28 @@ Theorem C13_wavesim_model_activity : forall c caps reuse delays actrl abuf_len s
     (KV.Proofs.WaveSimGlue.wave_inputs_ok c dl (stim_wave s extra) -> acc_once actrl 0 (build_ops c false) ->
      forall a, a < abuf_len -> nth a (w_abuf r) 0%Z = wsa_final actrl 0 (build_ops c false) (wexec dl cp (build_ops c false) e0) a).
 Proof. exact KV.Proofs.WaveSimGlue.wavesim_model_activity. Qed.
+
+(** SOURCE TIE (see C03_kernel_source_is_model): the merge kernel as translated from the current text of wave_sim._wave_eval
+    (Gen/WaveEvalSrc.v, regenerated on every run) computes the model [wave_eval]; hence the pair (nrise, nfall) the SOURCE returns
+    counts the rising / falling transitions of the waveform that call stored. *)
+From KV Require Import Model.WaveSrcPrelude Gen.WaveEvalSrc.
+From KV Require Proofs.WaveEvalSrcProofs Proofs.WaveEvalSrcCorollaries.
+Theorem C13_kernel_source_is_model : forall lut ws ds zreg, 2 <= length zreg ->
+  KV.Proofs.WaveEvalSrcProofs.res_of
+    (WaveEvalSrc.wave_eval_src (KV.Proofs.WaveEvalSrcProofs.model_fuel ws) (Z.of_N lut) ws ds zreg) = wave_eval lut ws ds zreg.
+Proof. exact KV.Proofs.WaveEvalSrcProofs.kernel_source_is_model. Qed.
+
+Theorem C13_source_counts : forall lut ws ds zreg s nr nf, wf_args ws ds zreg ->
+  WaveEvalSrc.wave_eval_src (KV.Proofs.WaveEvalSrcProofs.model_fuel ws) (Z.of_N lut) ws ds zreg = Some (s, (nr, nf)) ->
+  (Z.to_nat nr, Z.to_nat nf) = edges (KV.Proofs.WaveEvalSrcCorollaries.src_z s).
+Proof. exact KV.Proofs.WaveEvalSrcCorollaries.src_counts. Qed.
+
+(** capture from the source text: wave_capture_cpu and the thread body of wave_capture_gpu (sd = 0), translated into
+    Gen/WaveEvalSrc.v on every run, compute the model [capture] all capture theorems above are about *)
+Theorem C13_capture_cpu_source_is_model : forall tcap w,
+  WaveCaptureCpuSrc.capture_src tcap w = KV.Proofs.WaveEvalSrcProofs.WaveCaptureCpuSrcProofs.model_result w tcap.
+Proof. exact KV.Proofs.WaveEvalSrcProofs.WaveCaptureCpuSrcProofs.capture_source_is_model. Qed.
+
+Theorem C13_capture_gpu_source_is_model : forall tcap w,
+  WaveCaptureGpuSrc.capture_src tcap w = KV.Proofs.WaveEvalSrcProofs.WaveCaptureGpuSrcProofs.model_result w tcap.
+Proof. exact KV.Proofs.WaveEvalSrcProofs.WaveCaptureGpuSrcProofs.capture_source_is_model. Qed.
